@@ -1,6 +1,7 @@
 """C12 - override constants (structure: fields, keys, required / optional entries)."""
-from common import coq_options
+from common import coq_options, run_driver
 import sink
+import obs
 
 ID = "C12"
 REQUIRES = ["Agree", "C12Spec", "Truth"]
@@ -11,8 +12,10 @@ RULE = ("kitchen-sink shaders with 0..6 overrides over {bool,i32,u32,f32} x defa
         "overrides, with vertex/fragment/compute entries using them; ground truth (fields, optionality, keys, bool "
         "conversion) computed in Python and compared with the real output; non-trivial = >= 2 overrides; distinct = "
         "distinct IR dumps")
-ASSUMPTIONS = ["the values put in the map (x as f64 / 1.0 / 0.0) and naga's process_overrides accepting them are "
-               "exercised in the compiled batch, not in this syntactic check"]
+ASSUMPTIONS = ["behavioural level (40 modules with overrides per run): the generated module is compiled against the "
+               "recording shim, OverrideConstants::constants() is called for 3 assignments each, the returned map is "
+               "compared with ground truth and then handed to naga's real process_overrides (driver overrides), which "
+               "must accept it and resolve every override to the assigned value / the WGSL default"]
 
 
 def cases(rng, tier):
@@ -20,15 +23,58 @@ def cases(rng, tier):
     out = []
     for i in range(n):
         s = sink.sink(rng, n_consts=0, n_overrides=rng.choice([0, 1, 2, 3, 4, 6]))
-        out.append({"wgsl": s["wgsl"], "family": "overrides", "opts": {"rustfmt": i % 10 == 0}, "truth": s["overrides"]})
+        out.append({"wgsl": s["wgsl"], "family": "overrides", "opts": {"rustfmt": i % 10 == 0}, "truth": s["overrides"],
+                    "assignments": sink.override_assignments(rng, s["overrides"])})
     return out
 
 
+def run_cases(plain, cases_, workdir, tag):
+    res = obs.attach(plain, cases_, workdir, tag, lambda c: len(c["truth"]) >= 1, 40 if "search" not in tag else 0,
+                     extra=lambda c: {"override_assignments": c["assignments"]})
+    # hand every map the compiled module produced to naga's real override resolution
+    jobs, where = [], []
+    for i, r in enumerate(res):
+        if "obs" in r and obs.usable(r):
+            for j, run in enumerate(r["obs"].get("overrides") or []):
+                if run.get("constants") is not None:
+                    jobs.append({"id": len(jobs), "wgsl": cases_[i]["wgsl"], "constants": run["constants"]})
+                    where.append((i, j))
+    if jobs:
+        out = run_driver(jobs, workdir, tag + "_ov", sub="overrides")
+        for (i, j), o in zip(where, out):
+            res[i].setdefault("ovres", {})[j] = o
+    return res
+
+
+def _obs(c, r):
+    if not obs.usable(r):
+        return False, "module did not build / run on the shim: %s" % str(r.get("obs"))[:300]
+    ok, why = obs.check_c12(c["truth"], c["assignments"], r)
+    if not ok:
+        return ok, why
+    ov = r.get("ovres", {})
+    return obs.check_c12_resolved(c["truth"], c["assignments"], [ov.get(j, {}) for j in range(len(c["assignments"]))])
+
+
 def verdict_expr(c, r, ir, real):
+    ob = "true"
+    if "obs" in r and r.get("result") == "ok":
+        ok, why = _obs(c, r)
+        c["note"] = why
+        ob = "true" if ok else "false"
     t = sink.coq_overrides_truth(c["truth"])
     return ('[wf_overrides %s; agree_res agree_C12 (gen %s ""%%string None %s) %s; '
-            'on_ok %s (fun o => C12_ok %s o && truth_overrides_ok o %s)]'
-            % (ir, ir, coq_options(c["opts"]), real, real, ir, t))
+            'on_ok %s (fun o => C12_ok %s o && truth_overrides_ok o %s) && %s]'
+            % (ir, ir, coq_options(c["opts"]), real, real, ir, t, ob))
+
+
+def verdict_expr_noout(c, r, ir):
+    ob = "true"
+    if "obs" in r and r.get("result") == "ok":
+        ok, why = _obs(c, r)
+        c["note"] = "extraction failed (%s); behaviour: %s" % (r.get("extract_err"), why)
+        ob = "true" if ok else "false"
+    return "[true; false; %s]" % ob
 
 
 def nontrivial(c, r):
